@@ -29,6 +29,7 @@ let ent_of_token (t : string) =
 let policy_of = function
   | "prefix" -> ArchiveNames.PreFix
   | "fix1" -> ArchiveNames.Fix1
+  | "fix2" -> ArchiveNames.Fix2
   | "fixed" -> ArchiveNames.Fixed
   | s -> failwith ("bad policy " ^ s)
 
@@ -39,7 +40,7 @@ let register () =
   (* c18.untar <policy> <no_same_owner><no_same_perms> <hexroot> <fs> <elems>
        -> <done|decode-error|write-error|fuel> <touched hexpaths,> <final listing,>
      listing entries: d:<hexpath>:<mode>:<uid>:<gid>:<mtime>  f:<hexpath>:<mode>:<uid>:<gid>:<mtime>:<hexdata>
-                      l:<hexpath>:<uid>:<gid>:<hextarget> *)
+                      l:<hexpath>:<uid>:<gid>:<mtime>:<hextarget> *)
   Drv.register "c18.untar" (fun args -> match args with
     | [pol; o; root; fs; elems] ->
         let o = { Untar.no_same_owner = (o.[0] = '1'); Untar.no_same_perms = (o.[1] = '1') } in
@@ -54,7 +55,7 @@ let register () =
         let listing = Stdlib.List.map (fun (p, e) -> match e with
           | FS.EDir m -> "d:" ^ hex_of_bytes p ^ ":" ^ meta_s m
           | FS.EFile (m, d) -> "f:" ^ hex_of_bytes p ^ ":" ^ meta_s m ^ ":" ^ hex_of_bytes d
-          | FS.ELink (m, t) -> "l:" ^ hex_of_bytes p ^ ":" ^ string_of_n m.FS.m_uid ^ ":" ^ string_of_n m.FS.m_gid ^ ":" ^ hex_of_bytes t) (UntarIO.dump_fs st.Untar.w_fs) in
+          | FS.ELink (m, t) -> "l:" ^ hex_of_bytes p ^ ":" ^ string_of_n m.FS.m_uid ^ ":" ^ string_of_n m.FS.m_gid ^ ":" ^ string_of_n m.FS.m_mtime ^ ":" ^ hex_of_bytes t) (UntarIO.dump_fs st.Untar.w_fs) in
         let j l = if l = [] then "-" else Stdlib.String.concat "," l in
         outs ^ " " ^ j touched ^ " " ^ j listing
     | _ -> "ERR args");
